@@ -727,7 +727,7 @@ fn constructors(ctx: &mut Ctx) {
     sizes.push(64);
     ctx.space(
         "constructors/large",
-        &format!("sizes {sizes:?} (inline storage holds 30) x input orders {ORDERS:?} of the ids 1..=size x the same 5 constructors"),
+        &format!("sizes {sizes:?} (inline storage holds 30) x input orders {ORDERS:?} of the ids 1..=size x the same 5 constructors; then inputs of {FAR_ENTRY_COUNTS:?} entries over the ids 1..=64 with duplicates at NON-adjacent positions: ascending ++ ascending prefix and ascending ++ descending (distinct counts around 30 and around the entry count), two base orders with every 2nd/3rd/7th id repeated at distance 3, and vectors of 31 and 35 entries with exactly one duplicate at positions (0,last), (0,2), (middle,last) in ascending / even-then-odd / descending order; distinct-id counts both <= 30 and > 30"),
     );
     let all: Vec<u32> = (1..=64).collect();
     let mut big: Option<Ontology> = None;
@@ -745,6 +745,89 @@ fn constructors(ctx: &mut Ctx) {
             ctx.sample(|| json!({"size": n, "order": ORDERS[o], "input_head": &seq[..seq.len().min(6)]}));
         }
     }
+    // inputs of more than 30 entries with duplicates at NON-adjacent positions
+    for (what, seq) in far_duplicate_inputs() {
+        if !ctx.take() {
+            continue;
+        }
+        let big = big.get_or_insert_with(|| isolated_ontology(&all));
+        let distinct: BTreeSet<u32> = seq.iter().copied().collect();
+        assert!(seq.len() > 30 && distinct.len() < seq.len() && seq.iter().all(|x| (1..=64).contains(x)), "harness: bad far-duplicate input {what}");
+        let top = *distinct.iter().next_back().unwrap();
+        let mut probes: Vec<u32> = (0..=top + 1).collect();
+        probes.push(u32::MAX);
+        let futures = [0, 1, top / 2, top, top + 1, u32::MAX];
+        constructor_case(ctx, &seq, big, &probes, &futures);
+        ctx.bump(if distinct.len() <= 30 { "far_duplicate_inputs_with_at_most_30_distinct_ids" } else { "far_duplicate_inputs_with_more_than_30_distinct_ids" }, 1);
+        ctx.sample(|| json!({"pattern": what, "entries": seq.len(), "distinct_ids": distinct.len(), "input": seq}));
+    }
+}
+
+const FAR_ENTRY_COUNTS: [usize; 7] = [31, 32, 33, 40, 60, 64, 70];
+
+/// Constructor inputs with more than 30 entries over the ids 1..=64 that repeat ids at
+/// non-adjacent positions (a bulk path that removes only adjacent repeats must fail on them).
+fn far_duplicate_inputs() -> Vec<(String, Vec<u32>)> {
+    let mut out: Vec<(String, Vec<u32>)> = vec![];
+    // (iv) exactly one duplicate in an otherwise duplicate-free vector of 31 and of 35 entries (30 resp. 34 distinct ids)
+    for e in [31usize, 35] {
+        for base_kind in [0usize, 3, 1] {
+            let base: Vec<u32> = order(base_kind, e - 1).iter().map(|i| *i as u32 + 1).collect();
+            let mid = (e - 1) / 2;
+            let mut v = base.clone();
+            v.push(base[0]);
+            out.push((format!("{e} entries, {} order, one duplicate at positions (0, last)", ORDERS[base_kind]), v));
+            let mut v = base.clone();
+            v.insert(2, base[0]);
+            out.push((format!("{e} entries, {} order, one duplicate at positions (0, 2)", ORDERS[base_kind]), v));
+            let mut v = base.clone();
+            v.push(base[mid]);
+            out.push((format!("{e} entries, {} order, one duplicate at positions (middle, last)", ORDERS[base_kind]), v));
+        }
+    }
+    for &e in &FAR_ENTRY_COUNTS {
+        // distinct counts d (ascending run 1..=d) followed by e-d repeated ids; d <= 30 and d > 30 where possible
+        let lo = (e + 1) / 2;
+        let hi = (e - 1).min(64);
+        let mut ds: Vec<usize> = [lo, 29, 30, 31, (e - 2).min(64), hi].into_iter().filter(|d| *d >= lo && *d <= hi).collect();
+        ds.sort_unstable();
+        ds.dedup();
+        for &d in &ds {
+            let p = e - d;
+            // (i) ascending ++ ascending prefix
+            let mut v: Vec<u32> = (1..=d as u32).collect();
+            v.extend(1..=p as u32);
+            out.push((format!("{e} entries: ascending 1..={d} ++ ascending prefix 1..={p}"), v));
+            // (ii) ascending ++ descending
+            let mut v: Vec<u32> = (1..=d as u32).collect();
+            v.extend((0..p as u32).map(|i| d as u32 - i));
+            out.push((format!("{e} entries: ascending 1..={d} ++ descending {d}..={}", d - p + 1), v));
+        }
+        // (iii) every k-th id repeated two new entries later (distance 3), over two base orders of 1..=64
+        for base_kind in [0usize, 2] {
+            let base: Vec<u32> = order(base_kind, 64).iter().map(|i| *i as u32 + 1).collect();
+            for k in [2usize, 3, 7] {
+                let mut v: Vec<u32> = vec![];
+                let mut pending: Vec<(usize, u32)> = vec![]; // (emit when v.len() == at, id)
+                let mut next = 0;
+                while v.len() < e {
+                    if let Some(pos) = pending.iter().position(|(at, _)| *at <= v.len()) {
+                        let (_, id) = pending.remove(pos);
+                        v.push(id);
+                        continue;
+                    }
+                    let id = base[next];
+                    next += 1;
+                    if next % k == 0 {
+                        pending.push((v.len() + 3, id));
+                    }
+                    v.push(id);
+                }
+                out.push((format!("{e} entries: {} order of 1..=64, every {k}th id repeated at distance 3", ORDERS[base_kind]), v));
+            }
+        }
+    }
+    out
 }
 
 // ------------------------------------------------------------------------------------------
